@@ -7,7 +7,7 @@
 //	                            (holds the Async drainer inside a close callback). Deterministic; after every op the
 //	                            implementation is left to settle and its state is compared with the model's stable
 //	                            successor state.
-//	  O new | add | addfail | release <c> | close <c> | eof <c> | werr <c> | holdclose | relclose | stop | Q
+//	  O new | add | addfail | release <c> | close <c> | eof <c> | werr <c> | holdclose | relclose | burst <n> | stop | Q
 //	  R stop=<idle|run|ret> opens=<n> closes=<n> c<i>=<opening|live|closed|done>:<in table 0|1> ...
 //
 //	C <id> real kind=core|http mode=lt|et|etos pollers=<n> listeners=<n> iomod=<nb|blocking|mixed>
@@ -134,12 +134,37 @@ func gen(g *lp.Gen) {
 			genHsim(g, i)
 			continue
 		}
+		if i%30 == 1 {
+			genSimBurst(g, i)
+			continue
+		}
 		if i%5 == 4 {
 			genReal(g, i)
 		} else {
 			genSim(g, i)
 		}
 	}
+}
+
+// genSimBurst: a sim case whose history contains one drain session of more than 1024 queued Async jobs.
+func genSimBurst(g *lp.Gen, id int) {
+	g.P("C %d sim pollers=%d", id, g.PickInt(1, 2))
+	n := 0
+	for k := g.Intn(3); k > 0; k-- {
+		g.P("O add")
+		n++
+	}
+	g.P("O burst %d", 1030+g.Intn(80))
+	g.P("O add")
+	n++
+	if g.Intn(2) == 0 {
+		g.P("O close %d", g.Intn(n))
+	}
+	if g.Intn(3) == 0 {
+		g.P("O add")
+	}
+	g.P("O stop")
+	g.P("Q")
 }
 
 func genSim(g *lp.Gen, id int) {
@@ -285,6 +310,7 @@ type simConn struct {
 	ccalls  int32
 	cdone   int32
 	gateOff int32
+	burst   bool // part of a `burst`: history only, not listed in the observation
 }
 
 type simCase struct {
@@ -300,6 +326,9 @@ type simCase struct {
 	heldIDs                 map[int]bool // conns whose OnOpen was running when Stop was called
 	opensAtRet, closesAtRet int32
 	npoll                   int
+	burst                   []*simConn
+	burstGate               chan struct{}
+	bopens, bcloses         int32
 }
 
 func (s *simCase) state() string {
@@ -373,6 +402,10 @@ func runSim(e *lp.Exec, head string, ops []string) {
 	s.g = g
 	g.OnOpen(func(c *nbio.Conn) {
 		sc := c.Session().(*simConn)
+		if sc.burst {
+			atomic.AddInt32(&s.bopens, 1)
+			return
+		}
 		atomic.AddInt32(&s.opens, 1)
 		atomic.StoreInt32(&sc.opened, 1)
 		if sc.gate != nil {
@@ -382,6 +415,17 @@ func runSim(e *lp.Exec, head string, ops []string) {
 	g.OnClose(func(c *nbio.Conn, err error) {
 		sc := c.Session().(*simConn)
 		atomic.AddInt32(&sc.ccalls, 1)
+		if sc.burst {
+			// the first close handler of a burst is slow: every other close notification queues up behind it
+			s.mu.Lock()
+			bg := s.burstGate
+			s.mu.Unlock()
+			if bg != nil {
+				<-bg
+			}
+			atomic.AddInt32(&s.bcloses, 1)
+			return
+		}
 		s.mu.Lock()
 		cg := s.closeGate
 		s.mu.Unlock()
@@ -458,6 +502,35 @@ func runSim(e *lp.Exec, head string, ops []string) {
 				if atomic.LoadInt32(&sc.added) == 1 && !sc.c.VerifState().Closed {
 					vsys.InjectTimeout(g.VerifEpfd(sc.fd%npoll), []syscall.EpollEvent{{Fd: int32(sc.fd), Events: syscall.EPOLLRDHUP}}, 3*time.Second)
 				}
+			}
+		case ow[1] == "burst":
+			// history: n conns registered and closed at once while the first close handler is slow, so that all n
+			// close notifications sit in the engine's Async queue behind it; then the handler returns and the queue
+			// drains. Nothing of it is left afterwards (model: a no-op) — unless the queue did not survive it.
+			n := atoi(ow[2])
+			bg := make(chan struct{})
+			s.mu.Lock()
+			s.burstGate = bg
+			s.mu.Unlock()
+			first := len(s.burst)
+			for i := 0; i < n; i++ {
+				fd, v := vsys.NewVFDHigh()
+				sc := &simConn{id: -1, fd: fd, v: v, c: nbio.VerifNewConn(fd, nbio.ConnTypeTCP), burst: true}
+				sc.c.SetSession(sc)
+				s.burst = append(s.burst, sc)
+				_, _ = g.AddConn(sc.c)
+			}
+			for _, sc := range s.burst[first:] {
+				_ = sc.c.Close()
+			}
+			time.Sleep(5 * time.Millisecond)
+			s.mu.Lock()
+			s.burstGate = nil
+			s.mu.Unlock()
+			close(bg)
+			want := int32(len(s.burst))
+			if ok := waitFor(func() bool { return atomic.LoadInt32(&s.bcloses) == want }, 10*time.Second); !ok {
+				e.Oracle("c18-close-count", "burst of %d closes behind one slow close handler: only %d of %d close notifications were delivered", n, atomic.LoadInt32(&s.bcloses), want)
 			}
 		case ow[1] == "holdclose":
 			s.mu.Lock()
@@ -569,6 +642,9 @@ func runSim(e *lp.Exec, head string, ops []string) {
 	}
 	waitFor(func() bool { return atomic.LoadInt32(&s.stopState) == 2 }, 5*time.Second)
 	for _, c := range s.conns {
+		vsys.Forget(c.fd)
+	}
+	for _, c := range s.burst {
 		vsys.Forget(c.fd)
 	}
 }
